@@ -267,6 +267,51 @@ def check_node_list_conservation(ctx, prog, rule):
                % ndrops, gen.loc())
 
 
+def check_tree_element_shapes(ctx, prog, rule="c13.protocol"):
+    """construction-site shape of every TreeElement generate_node_list pushes (support of the BVH protocol exceptions: build_from_node_list unwraps
+    `elements` of a Leaf and `parent` of a pending element)"""
+    gen = prog.find("energy::raytracing::bvh::BVH::<T>::generate_node_list")
+    sc = Scope(prog, gen)
+    for b, i, s in gen.body.statements():
+        if s["s"] == "assign" and s["rv"]["r"] == "agg" and s["rv"].get("adt", "").endswith("TreeElement"):
+            n_ = sc.rvalue(s["rv"])
+            ops = [strip(o) for o in n_[3]]
+            ntype = show(ops[1])
+            parent, elems = ops[3], ops[4]
+            # where is it pushed?
+            dest = None
+            from ..dataflow import uses_of
+            from ..mir import pl_local
+            for u in uses_of(gen.body, pl_local(s["p"])):
+                if u[0] == "term" and u[2]["t"] == "call" and short_callee(callee_name(u[2]) or "") == "push":
+                    dest = leaf_name(strip(sc.operand(u[2]["args"][0])))
+            key = rule + "|%s|%s|%s" % (dest, ntype.split("{")[0], "root" if (parent[0] == "agg" and parent[1].endswith("None")) else "child")
+            k2 = key
+            c = 1
+            while any(x.key == k2 for x in ctx.instances):
+                c += 1
+                k2 = "%s|%d" % (key, c)
+            is_some = lambda x: (x[0] == "agg" and x[1].endswith("::Some")) or (x[0] in ("var", "proj", "arg") )
+            is_none = lambda x: x[0] == "agg" and x[1].endswith("::None")
+            probs = []
+            if dest == "pending":
+                if not (parent[0] == "agg" and parent[1].endswith("::Some")):
+                    probs.append("pending element without Some(parent)")
+                if not (elems[0] == "agg" and elems[1].endswith("::Some")):
+                    probs.append("pending element without Some(elements)")
+            elif dest == "node_list":
+                if "Leaf" in ntype and is_none(elems):
+                    probs.append("leaf without elements")
+                if "Node" in ntype and not is_none(elems):
+                    probs.append("inner node carrying elements")
+            else:
+                probs.append("TreeElement not pushed onto pending/node_list")
+            if probs:
+                ctx.violation(rule, k2, "; ".join(probs) + ": build_from_node_list unwraps these fields", gen.loc(s.get("ln")))
+            else:
+                ctx.ok(rule, k2, "TreeElement(%s) parent=%s elems=%s" % (ntype, show(parent)[:20], show(elems)[:20]), gen.loc(s.get("ln")))
+
+
 def run(ctx):
     prog = ctx.prog
     inv = Inventory(prog, ctx.cg)
@@ -316,45 +361,7 @@ def run(ctx):
     assign_keys(prog, sites, "c14.panic")    # same keys as C14 (shared exception table)
     ctx.floor("c13.panic", "may-panic sites in the BVH code", len(sites), 15)
     report_sites(ctx, "c14.panic", sites, C14_EXCEPTIONS, {fid: par for fid, par in seen.items() if bvh(prog.fns[fid])})
-    # construction-site shape (support of the BVH protocol exceptions)
-    for b, i, s in gen.body.statements():
-        if s["s"] == "assign" and s["rv"]["r"] == "agg" and s["rv"].get("adt", "").endswith("TreeElement"):
-            n_ = sc.rvalue(s["rv"])
-            ops = [strip(o) for o in n_[3]]
-            ntype = show(ops[1])
-            parent, elems = ops[3], ops[4]
-            # where is it pushed?
-            dest = None
-            from ..dataflow import uses_of
-            from ..mir import pl_local
-            for u in uses_of(gen.body, pl_local(s["p"])):
-                if u[0] == "term" and u[2]["t"] == "call" and short_callee(callee_name(u[2]) or "") == "push":
-                    dest = leaf_name(strip(sc.operand(u[2]["args"][0])))
-            key = "c13.protocol|%s|%s|%s" % (dest, ntype.split("{")[0], "root" if (parent[0] == "agg" and parent[1].endswith("None")) else "child")
-            k2 = key
-            c = 1
-            while any(x.key == k2 for x in ctx.instances):
-                c += 1
-                k2 = "%s|%d" % (key, c)
-            is_some = lambda x: (x[0] == "agg" and x[1].endswith("::Some")) or (x[0] in ("var", "proj", "arg") )
-            is_none = lambda x: x[0] == "agg" and x[1].endswith("::None")
-            probs = []
-            if dest == "pending":
-                if not (parent[0] == "agg" and parent[1].endswith("::Some")):
-                    probs.append("pending element without Some(parent)")
-                if not (elems[0] == "agg" and elems[1].endswith("::Some")):
-                    probs.append("pending element without Some(elements)")
-            elif dest == "node_list":
-                if "Leaf" in ntype and is_none(elems):
-                    probs.append("leaf without elements")
-                if "Node" in ntype and not is_none(elems):
-                    probs.append("inner node carrying elements")
-            else:
-                probs.append("TreeElement not pushed onto pending/node_list")
-            if probs:
-                ctx.violation("c13.protocol", k2, "; ".join(probs) + ": build_from_node_list unwraps these fields", gen.loc(s.get("ln")))
-            else:
-                ctx.ok("c13.protocol", k2, "TreeElement(%s) parent=%s elems=%s" % (ntype, show(parent)[:20], show(elems)[:20]), gen.loc(s.get("ln")))
+    check_tree_element_shapes(ctx, prog)
     # producer/consumer agreement on the node list: the consumer pops from the back while `len > c` and then reads only `completed`;
     # unless it also takes what is left, the first c entries the producer pushed are never consumed, so they must carry no elements
     cons = prog.find("energy::raytracing::bvh::BVH::<T>::build_from_node_list")
